@@ -261,7 +261,31 @@ def r3_byte_source(ctx) -> None:
         r.ok("C04.R3", tp.qual, "regex=True branch appends string parts unchanged", tp.loc)
     else:
         r.violation("C04.R3", tp.qual, "if regex: rs += s", "the unescaped rendering no longer passes string parts through unchanged", tp.loc)
-    r.floor("C04.R3", 2)
+    # what the Base64 modifiers encode is bytes(val) (plus padding), never a rendering of the value as text
+    for cn in ("SigmaBase64Modifier", "SigmaBase64OffsetModifier"):
+        bf = prog.func(f"{M}.{cn}.modify")
+        encs = [c for c in walk_no_nested(bf.node) if isinstance(c, ast.Call) and call_name(c).split(".")[-1] == "b64encode"]
+        if not encs:
+            raise AnalysisError(f"{bf.qual}: b64encode call not found")
+        for c in encs:
+            exprs = [c.args[0]]
+            seen: set[str] = set()
+            texts = []
+            while exprs:
+                e = exprs.pop()
+                texts.append(unparse(e))
+                for nm in (x for x in ast.walk(e) if isinstance(x, ast.Name)):
+                    if nm.id not in seen and nm.id not in ("val", "self", "bytes", "i", "len"):
+                        seen.add(nm.id)
+                        exprs.extend(v for v in assignments_to(bf.node, nm.id) if isinstance(v, ast.AST) and not isinstance(v, (ast.For, ast.comprehension, ast.With, ast.ExceptHandler)))
+            joined = " ; ".join(texts)
+            loc = f"{bf.module.relpath}:{c.lineno}"
+            textual = [k for k in ("str(val)", "val.to_plain", "val.original", ".encode(", "repr(") if k in joined]
+            if "bytes(val)" in joined and not textual:
+                r.ok("C04.R3", bf.qual, f"b64encode({short(c.args[0], 50)}) encodes bytes(val)", loc)
+            else:
+                r.violation("C04.R3", bf.qual, short(c, 100), f"the encoded byte string is not bytes(val) ({textual or 'no bytes(val)'}): a textual rendering of the value contains the escaping backslashes of literal '*' and '?' (and is stale for values built by earlier modifiers), so other bytes than the payload are encoded", loc)
+    r.floor("C04.R3", 4)
 
 
 def r4_utf16(ctx) -> None:
@@ -302,6 +326,12 @@ def r4_utf16(ctx) -> None:
                 r.ok("C04.R4", f.qual, "re-decoded as utf-8 inside try/except UnicodeDecodeError → SigmaValueError", loc)
             else:
                 r.violation("C04.R4", f.qual, short(prog.enclosing_stmt(c), 100), "the re-decoding step must be guarded so that undecodable byte sequences are rejected with SigmaValueError (not UnicodeDecodeError, not silently altered)", loc)
+            if dec_ok:
+                use = prog.parent(p)
+                if isinstance(use, ast.Call) and call_name(use) == "r.append" and use.args and use.args[0] is p:
+                    r.ok("C04.R4", f.qual, "the re-decoded text itself is the new part", loc)
+                else:
+                    r.violation("C04.R4", f.qual, short(prog.enclosing_stmt(c), 100), "the encode/decode round trip is only used as a test and the part is built some other way: the round trip *is* the encoding (it also rejects what it cannot represent), a hand-built interleaving accepts characters whose UTF-16 bytes happen to be valid UTF-8 and emits bytes that are not UTF-16", loc)
             gs = atomic_guards(guards_at(prog, f, c))
             if ("isinstance(item, str)", True) in gs:
                 r.ok("C04.R4", f.qual, "only str parts are encoded; other parts are appended unchanged", loc)
